@@ -348,8 +348,10 @@ def gen_stress(rng, tier):
 
 
 def stress_stage(rep, sc, sexe, tier, seed, scenarios=None):
-    rng = random.Random(seed * 77 + 5)
-    scenarios = scenarios or gen_stress(rng, tier)
+    if not scenarios:
+        scenarios = []
+        for d in range(1 if tier == "quick" else 4):          # thorough: several derived seeds
+            scenarios += gen_stress(random.Random(seed * 77 + 5 + 1000 * d), tier)
     bad, ok, pushed = [], 0, 0
     # one process per scenario: a violation or a stuck run ends the process
     for s in scenarios:
@@ -447,7 +449,8 @@ def run(tier, seed, replay):
                     "generator_stats": stats, "mismatch_observable": len(obs), "mismatch_internal_only": len(internal),
                     "exhaustive": True})
         if obs:
-            i, c, a, b = min(obs, key=lambda x: len(x[1]))
+            # prefer a failing sequence inside the callers' contract (theorem scope) over an off-contract one
+            i, c, a, b = min([x for x in obs if " 0x ;" not in x[1]] or obs, key=lambda x: len(x[1]))
             # shrink the shortest failing call sequence (delta debugging on the call list)
             hd, opstr = c.split(";", 1)
 
